@@ -395,7 +395,7 @@ func checkC01(c *mc.Ctx) {
 	}
 	// (ii) shape sweep of a single WriteData followed by one small unit on the same PID
 	sweepC01(c)
-	c.Ev.Require("history-with-2-or-more-pes", "payload-over-65535", "exact-fit", "one-byte-stuffing", "af-room-exactly-header", "start-code-lookalike-payload")
+	c.Ev.Require("history-with-2-or-more-pes", "payload-over-65535", "exact-fit", "one-byte-stuffing", "af-room-exactly-header", "start-code-lookalike-payload", "every-stream-type")
 }
 
 type shape struct {
@@ -506,6 +506,20 @@ func sweepC01(c *mc.Ctx) {
 			c.Ev.Sample(map[string]any{"scenario": "shape-sweep", "shape": s})
 		}
 	})
+	// every stream_type value: what a stream is declared to carry in the PMT does not change how its PES packets
+	// travel (the Muxer writes PES on every stream; the default stream id follows the documented mapping)
+	nt := int64(256)
+	donet := mc.ParFor(nt, c.OverBudget, func(i int64) {
+		ops := []MOp{{K: "add", PID: 0x100, ST: uint8(i)}, {K: "add", PID: 0x101, ST: uint8(255 - i), Desc: "sid"}, opPcrA,
+			{K: "data", PID: 0x100, Len: 10}, {K: "data", PID: 0x101, Len: 300, Hdr: "ptsdts"}, {K: "data", PID: 0x100, Len: 200, AF: "raipcr"}, opTables, {K: "data", PID: 0x101, Len: 5}}
+		for _, v := range roundTrip(3, ops, c.Seed) {
+			c.Rep.Report(v.Sig, map[string]any{"kind": "mux-roundtrip", "scenario": "stream-types", "period": 3, "ops": ops, "message": v.Msg})
+		}
+		c.Ev.Distinct(fmt.Sprintf("stream-type|%d", i))
+	})
+	c.Ev.Class("every-stream-type", donet)
+	c.Ev.AddScenario(mc.Scenario{Name: "stream-types", SpaceSize: nt, Executed: donet, Exhaustive: donet == nt,
+		Bound: "every stream_type value 0..255 on one stream (and its complement on a second one): two streams, five units, tables in between"})
 	c.Ev.AddScenario(mc.Scenario{Name: "shape-sweep", SpaceSize: n, Executed: done, Exhaustive: done == n,
 		Bound: "every payload length 1..760, windows around 65535 and 131072, 816 structural PES header shapes x lengths around the packet boundary, adaptation fields sized to each room-left class; 2 PIDs (video: unbounded length, audio: bounded length)"})
 }
